@@ -19,6 +19,10 @@ import (
 	"strings"
 )
 
+// src is where engine/, hooks/ and hooks-<variant>/ are read from (default /verif; -src for a snapshot taken
+// when a batch of scratch runs started, so that editing /verif does not disturb them).
+var src = "/verif"
+
 const (
 	verif  = "/verif"
 	modpfx = "github.com/cenkalti/rain/v2/zzverif/"
@@ -37,7 +41,9 @@ func main() {
 	out := flag.String("o", "", "overlay json path")
 	repoFlag := flag.String("repo", "/repo", "repository tree")
 	tag := flag.String("tag", "", "suffix for the generated-files directory (parallel runs)")
+	srcFlag := flag.String("src", "/verif", "directory holding engine/, hooks/, hooks-<variant>/")
 	flag.Parse()
+	src = *srcFlag
 	repo = *repoFlag
 	gen = filepath.Join(verif, ".build", "gen", *variant+*tag)
 	os.RemoveAll(gen)
@@ -45,23 +51,23 @@ func main() {
 	ov := map[string]string{}
 
 	// 1. virtual packages: /verif/engine/** -> /repo/zzverif/**
-	filepath.Walk(filepath.Join(verif, "engine"), func(p string, fi os.FileInfo, err error) error {
+	filepath.Walk(filepath.Join(src, "engine"), func(p string, fi os.FileInfo, err error) error {
 		if err != nil || fi.IsDir() {
 			return nil
 		}
 		if strings.HasSuffix(p, ".go") {
-			rel, _ := filepath.Rel(filepath.Join(verif, "engine"), p)
+			rel, _ := filepath.Rel(filepath.Join(src, "engine"), p)
 			ov[filepath.Join(repo, "zzverif", rel)] = p
 		}
 		return nil
 	})
 	// 2. in-package hook files: /verif/hooks/<pkgpath>/zz_verif_*.go -> /repo/<pkgpath>/...
-	filepath.Walk(filepath.Join(verif, "hooks"), func(p string, fi os.FileInfo, err error) error {
+	filepath.Walk(filepath.Join(src, "hooks"), func(p string, fi os.FileInfo, err error) error {
 		if err != nil || fi.IsDir() {
 			return nil
 		}
 		if strings.HasSuffix(p, ".go") {
-			rel, _ := filepath.Rel(filepath.Join(verif, "hooks"), p)
+			rel, _ := filepath.Rel(filepath.Join(src, "hooks"), p)
 			if !strings.HasPrefix(filepath.Base(rel), "zz_verif_") {
 				die("hook file %s must be named zz_verif_*.go", p)
 			}
@@ -70,12 +76,12 @@ func main() {
 		return nil
 	})
 	// 2b. variant-specific hook files: /verif/hooks-<variant>/<pkgpath>/zz_verif_*.go
-	filepath.Walk(filepath.Join(verif, "hooks-"+*variant), func(p string, fi os.FileInfo, err error) error {
+	filepath.Walk(filepath.Join(src, "hooks-"+*variant), func(p string, fi os.FileInfo, err error) error {
 		if err != nil || fi.IsDir() {
 			return nil
 		}
 		if strings.HasSuffix(p, ".go") {
-			rel, _ := filepath.Rel(filepath.Join(verif, "hooks-"+*variant), p)
+			rel, _ := filepath.Rel(filepath.Join(src, "hooks-"+*variant), p)
 			if !strings.HasPrefix(filepath.Base(rel), "zz_verif_") {
 				die("hook file %s must be named zz_verif_*.go", p)
 			}
